@@ -346,11 +346,31 @@ def r_data(sh, rep, gram):
 
 # spec table: escape forms each std escaping function can emit (Rust std documentation)
 ESCAPERS = {
-    "escape_default@u8": {"unit": "byte", "forms": ["\\t", "\\r", "\\n", "\\'", '\\"', "\\\\", "\\x"]},
-    "escape_default@char": {"unit": "char", "forms": ["\\t", "\\r", "\\n", "\\'", '\\"', "\\\\", "\\u"]},
-    "escape_debug@char": {"unit": "char", "forms": ["\\t", "\\r", "\\n", "\\'", '\\"', "\\\\", "\\u", "\\0"]},
-    "escape_unicode@char": {"unit": "char", "forms": ["\\u"]},
+    "escape_default@u8": {"forms": ["\\t", "\\r", "\\n", "\\'", '\\"', "\\\\", "\\x"]},
+    "escape_default@char": {"forms": ["\\t", "\\r", "\\n", "\\'", '\\"', "\\\\", "\\u"]},
+    "escape_debug@char": {"forms": ["\\t", "\\r", "\\n", "\\'", '\\"', "\\\\", "\\u", "\\0"]},
+    "escape_unicode@char": {"forms": ["\\u"]},
 }
+
+
+def escaping_site(sh, fp, arm_body, depth=0):
+    """(node containing the escaping expression, escaper call) — in the arm itself or in a helper of pretty.rs it calls"""
+    for c in calls_in(arm_body):
+        nm = call_name(c)
+        if nm and "escape" in last(nm) and last(nm) in ("escape_default", "escape_debug", "escape_unicode"):
+            return arm_body, c
+    if depth < 2:
+        for c in calls_in(arm_body):
+            nm = call_name(c)
+            if c["k"] == "Call" and nm and "::" not in nm:
+                try:
+                    h = find_fn(fp, nm)
+                except AnchorMissing:
+                    continue
+                r = escaping_site(sh, fp, h["body"], depth + 1)
+                if r:
+                    return r
+    return None
 
 
 def r_esc(sh, rep, gram):
@@ -359,14 +379,16 @@ def r_esc(sh, rep, gram):
         raise AnchorMissing("grammar rule character / string")
     accepted = set()
     hex_unit = None
+    raw_any = False
     for alt in gram["character"].alts:
         for l in alt.lits:
             accepted.add(l)
         if "\\x" in alt.lits:
             flat = alt.action_flat()
-            # what does \xHH denote on the parser side? one decoded byte turned into a char -> unit char (Latin-1)
+            # \xHH on the parser side: one decoded byte turned into one char (Latin-1 code point)
             hex_unit = "char" if ("into" in flat or "char" in flat) else "byte"
-    # return type of rule character: look for `-> char`
+        if not alt.lits and not alt.actions and any(t["t"] == "g" and t["d"] == "[" for t in alt.toks):
+            raw_any = True  # [^ '"'] : any other character is taken verbatim
     for name in ("to_doc", "to_doc_list"):
         f = find_method(fp, "Constant", name)
         m = next(matches_in(f["body"]))
@@ -376,13 +398,16 @@ def r_esc(sh, rep, gram):
             rep.bad("R15-ESC", "%s#String#no-arm" % name, P, "no String arm")
             continue
         where = sh.loc(P, arm)
-        calls = [call_name(c) for c in calls_in(arm["body"])]
-        esc = [c for c in calls if c and "escape" in last(c)]
-        if not esc:
+        site = escaping_site(sh, fp, arm["body"])
+        if not site:
             rep.bad("R15-ESC", "%s#String#no-escaping" % name, where, "string content is printed without a recognised escaping function: quotes/backslashes inside strings would not parse back")
             continue
-        unit = "u8" if "as_bytes" in calls or "bytes" in calls else "char"
-        key = "%s@%s" % (last(esc[0]), unit)
+        body, esc = site
+        calls = [call_name(c) for c in calls_in(body)]
+        src = sh.nsrc(P, body)
+        over_bytes = "as_bytes" in calls or "bytes" in calls
+        arg_is_u8 = over_bytes or bool(re.search(r"escape_default\((\*?\w+asu8|\*\w+)\)", src))
+        key = "%s@%s" % (last(call_name(esc)), "u8" if arg_is_u8 else "char")
         if key not in ESCAPERS:
             rep.bad("R15-ESC", "%s#String#unrecognised-escaper" % name, where, "escaping function %s is not in the spec table of escapers; cannot decide which forms it emits" % key)
             continue
@@ -392,16 +417,24 @@ def r_esc(sh, rep, gram):
             rep.bad("R15-ESC", "%s#String#forms-not-accepted" % name, where, "printer can emit escape form(s) %r that grammar rule character has no alternative for" % missing)
         else:
             rep.ok("R15-ESC", "%s#String#forms" % name, where, sample={"escaper": key, "forms": spec["forms"], "accepted": sorted(accepted)})
-        if spec["unit"] == "byte" and hex_unit == "char":
+        # unit agreement: what does one \\xHH stand for on each side?
+        if over_bytes:
+            punit = "byte of the UTF-8 encoding (every byte >= 0x80 becomes its own \\xHH)"
+            okunit = hex_unit == "byte"
+        else:
+            ascii_only = "is_ascii()" in src
+            punit = "ASCII character only (non-ASCII printed verbatim)" if ascii_only else "character truncated to u8"
+            okunit = ascii_only and raw_any and hex_unit == "char"
+        if okunit:
+            rep.ok("R15-ESC", "%s#String#unit" % name, where, sample={"printer_unit": punit, "parser_unit": hex_unit})
+        else:
             rep.bad(
                 "R15-ESC",
                 "%s#String#unit-mismatch" % name,
                 where,
-                "printer escapes the BYTES of the UTF-8 encoding (as_bytes + escape_default(u8) -> one \\xHH per byte) while grammar rule character turns each \\xHH into one CHAR: non-ASCII text does not round-trip",
-                sample={"printer_unit": "byte", "parser_unit": "char"},
+                "printer escapes per %s while grammar rule character reads each \\xHH as one %s: non-ASCII text does not round-trip" % (punit, hex_unit),
+                sample={"printer_unit": punit, "parser_unit": hex_unit},
             )
-        else:
-            rep.ok("R15-ESC", "%s#String#unit" % name, where, sample={"printer_unit": spec["unit"], "parser_unit": hex_unit})
 
 
 # review table: action sites that index/unwrap but are dominated by a check. key -> reason
